@@ -526,7 +526,7 @@ func genContendScenario(r *rng) *Scenario {
 		var ops []Op
 		n := 1 + r.intn(3)
 		for j := 0; j < n; j++ {
-			p := Prog{srcs[r.intn(2)], genericEnvs[r.intn(4)], false, true}
+			p := Prog{srcs[r.intn(2)], genericEnvs[r.intn(len(genericEnvs))], false, true}
 			ops = append(ops, Op{K: "compile", E: 0, ES: true, Prog: &p})
 			ops = append(ops, Op{K: "invoke", C: len(ops) - 1, Env: p.Env, EnvSh: r.chance(0.3)})
 		}
@@ -657,7 +657,7 @@ func genScenario(r *rng, cold bool) *Scenario {
 				p := pickProg(r, sc.Shared[e].UserFuns)
 				if len(generic) > 0 && r.chance(0.4) {
 					// several tasks compile the SAME generic source on the shared engine under different typings
-					p = Prog{generic[r.intn(len(generic))], genericEnvs[r.intn(4)], false, true}
+					p = Prog{generic[r.intn(len(generic))], genericEnvs[r.intn(len(genericEnvs))], false, true}
 				}
 				ops = append(ops, Op{K: "compile", E: e, ES: true, Prog: &p})
 				myCalls = append(myCalls, i)
